@@ -99,6 +99,14 @@ class C19(Check):
         for _ in range(rng.randint(2, 25)):
             level *= rng.choice([0.5, 0.9, 1.0, 1.5, 2.0, 0.99])
             obs.append(round(level, 9))
+        v = rng.random()
+        if v < 0.1:
+            # the best loss reaches exactly zero; nothing after it improves on it (the rule then gives reward 0, no division)
+            k = rng.randrange(1, len(obs))
+            obs = obs[:k] + [0.0] + [abs(x) for x in obs[k:]]
+        elif v < 0.2:
+            # negative losses (e.g. a negative log-likelihood): the stated formula applies unchanged
+            obs = [-x for x in obs]
         return {"engine": "compsim", "mode": "direct", "n_actions": n_actions, "agent": agent, "ops": ops, "obs": obs,
                 "twin_ctor_seed": rng.choice([None, rng.randrange(2 ** 31)])}
 
